@@ -1,5 +1,7 @@
 (* C19 - c-revision: compilations agree; the constraint system characterises acceptance by the revised ranking. *)
-From InfOCF Require Import Core Tol Form Model Crev ThmCrev ThmCrevInc.
+From InfOCF Require Import Core Tol Form Model Crev ThmCrev ThmCrevInc PyLib TieCrev.
+From InfOCFGen Require Import SrcOcfCustom SrcCrev.
+From Coq Require Import ZArith.
 
 (* the literal bit-mask path of the fast / incremental compilation classifies worlds like the general path *)
 Theorem C19_mask_path_is_evaluation : forall c w, classify_fast c w = classify c w.
@@ -36,6 +38,32 @@ Theorem C19_incremental_indices_distinct : forall pr ops, NoDup (map ckey (reg (
 Proof. exact incremental_registry_distinct. Qed.
 Print Assumptions C19_incremental_indices_distinct.
 
+(* ---- tied to the source: compile_alt GENERATED from inference/c_revision.py ---- *)
+(* for every signature size, every prior over worlds of the signature, any rank_world that looks the prior up, and every list of
+   revision conditionals with distinct indices, the generated compile_alt returns the reference compilation of the model:
+   per conditional, in list order, the triples of the worlds verifying / falsifying it, in the order of the prior *)
+Theorem C19_source_compile_alt_is_reference : forall n rank_world pr,
+  (forall p, In p pr -> In (fst p) (worlds n)) ->
+  (forall p, In p pr -> rank_world (fst p) = Return (Z.of_nat (snd p))) ->
+  forall cs, NoDup (map ckey cs) ->
+  py_compile_alt n rank_world (zprior pr) cs = Return (zcomp (fst (compile_alt cs pr)), zcomp (snd (compile_alt cs pr))).
+Proof. exact tie_compile_alt. Qed.
+Print Assumptions C19_source_compile_alt_is_reference.
+(* with the ranking function a CustomPreOCF: rank_world is the lookup generated from inference/preocf.py *)
+Theorem C19_source_compile_alt_custom : forall n pr, NoDup (map fst pr) -> (forall p, In p pr -> In (fst p) (worlds n)) ->
+  forall cs, NoDup (map ckey cs) ->
+  py_compile_alt n (fun w => py_CustomPreOCF_rank_world n (zprior pr) w false) (zprior pr) cs
+  = Return (zcomp (fst (compile_alt cs pr)), zcomp (snd (compile_alt cs pr))).
+Proof. exact tie_compile_alt_custom. Qed.
+Print Assumptions C19_source_compile_alt_custom.
+(* hence the constraint system over what the generated code compiles has exactly the accepting parameters as solutions *)
+Theorem C19_source_compilation_characterises_acceptance : forall n pr cs, NoDup (map fst pr) -> (forall p, In p pr -> In (fst p) (worlds n)) ->
+  NoDup (map ckey cs) ->
+  exists comp, py_compile_alt n (fun w => py_CustomPreOCF_rank_world n (zprior pr) w false) (zprior pr) cs = Return (zcomp (fst comp), zcomp (snd comp))
+    /\ forall gp gm, csp_holds gp gm comp = forallb (accepts_star cs pr gp gm) cs.
+Proof. exact src_compilation_acceptance. Qed.
+Print Assumptions C19_source_compilation_characterises_acceptance.
+
 Definition pr2 : prior := [([false;false],0);([false;true],1);([true;false],0);([true;true],1)].
 Definition c1 := {| ckey := 4; ccons := FVar 1; cante := FVar 0 |}.
 Definition c2 := {| ckey := 9; ccons := FNot (FVar 1); cante := FTop |}.
@@ -44,3 +72,10 @@ Example crev_example : compile_fast [c1;c2] pr2 = compile_alt [c1;c2] pr2
   /\ csp_holds (fun _ => 0) (fun k => if k =? 4 then 1 else 2) (compile_alt [c1] pr2) = false
   /\ csp_holds (fun _ => 0) (fun k => if k =? 4 then 2 else 0) (compile_alt [c1] pr2) = true.
 Proof. vm_compute. repeat split. Qed.
+(* the premises of the source theorems are satisfiable, and the generated code runs to the model's value on a concrete input *)
+Example crev_source_example : NoDup (map fst pr2) /\ (forall p, In p pr2 -> In (fst p) (worlds 2)) /\ NoDup (map ckey [c1;c2])
+  /\ py_compile_alt 2 (fun w => py_CustomPreOCF_rank_world 2 (zprior pr2) w false) (zprior pr2) [c1;c2]
+     = Return (zcomp (fst (compile_alt [c1;c2] pr2)), zcomp (snd (compile_alt [c1;c2] pr2)))
+  /\ fst (compile_alt [c1;c2] pr2) = [(4, [(1, [], [9])]); (9, [(0, [], []); (0, [], [4])])].
+Proof. split; [repeat constructor; simpl; intuition discriminate|]. split; [intros p Hp; simpl in Hp; simpl; intuition (subst; simpl; auto)|].
+  split; [repeat constructor; simpl; intuition discriminate|]. split; vm_compute; reflexivity. Qed.
